@@ -28,14 +28,15 @@ ENGINES = {
             ('fenv_main.cpp', 'fenv_main.o', ['-std=c++17', '-O1', '-frounding-math']),
             ('fenv_ref.cpp', 'fenv_ref.o', ['-std=c++17', '-O1', '-fno-builtin', '-frounding-math', '-ffp-contract=off']),
         ],
-        'avel_tus': [('fenv_ops.cpp', ['-frounding-math'])],   # per configuration, AVEL header first
+        'avel_tus': [('fenv_ops.cpp', ['-frounding-math'])] +   # per configuration, AVEL header first
+                    [('fenv_api.cpp', ['-frounding-math', '-DAPI_PART=%d' % k], 'fenv_api_%d.o' % k) for k in range(10)],
         'link': ['-lm'],
         'configs': C.vector_configs,
         'seeded_runs': {'quick': 60000, 'thorough': 3000000},
         'gate_n': {'quick': 200, 'thorough': 5000},
         'required_probes': {
             'C10': ['env_checked_calls', 'call_under_directed_mode', 'lane_rotation_checked'],
-            'C11': ['env_checked_calls', 'call_under_directed_mode', 'call_under_ftz_daz', 'nearbyint_tie_under_directed_mode'],
+            'C11': ['env_checked_calls', 'call_under_directed_mode', 'call_under_ftz_daz', 'nearbyint_tie_under_directed_mode', 'env_checked_api_calls'],
         },
         'required_faults': ['env_jump_rc_down', 'env_jump_rc_up', 'env_jump_rc_zero', 'env_jump_rc_nearest'],
     },
